@@ -192,6 +192,7 @@ class RS232Segment(NPDSegment):
             self.sync_bytes = list(struct.unpack_from(">{}B".format(sync_word_cnt), self.payload[2:]))
             self.data = self.payload[2 + sync_word_cnt :]
         else:
+            self.sync_bytes = []
             self.data = self.payload[2:]
         return remaining
 
